@@ -314,72 +314,17 @@ func (p *Parser) parseOuterTemplate() ([]Node, error) {
 }
 
 // Parse an expression
+//
+// Grammar (lowest to highest precedence):
+//
+//	expression := binary [ "?" expression ":" expression ]
+//	binary     := unary { operator binary }      (precedence climbing, left associative)
+//	unary      := ("not" | "-" | "+") unary | postfix
+//	postfix    := primary { "." name [ "(" args ")" ] | "[" expression "]" | "|" filter [ "(" args ")" ] }
 func (p *Parser) parseExpression() (Node, error) {
-	// Parse the primary expression first
-	expr, err := p.parseSimpleExpression()
+	expr, err := p.parseBinary(PREC_OR)
 	if err != nil {
 		return nil, err
-	}
-
-	// Check for array access with square brackets
-	for p.tokenIndex < len(p.tokens) &&
-		p.tokens[p.tokenIndex].Type == TOKEN_PUNCTUATION &&
-		p.tokens[p.tokenIndex].Value == "[" {
-
-		// Get the line number for error reporting
-		line := p.tokens[p.tokenIndex].Line
-
-		// Skip the opening bracket
-		p.tokenIndex++
-
-		// Parse the index expression
-		indexExpr, err := p.parseExpression()
-		if err != nil {
-			return nil, err
-		}
-
-		// Expect closing bracket
-		if p.tokenIndex >= len(p.tokens) ||
-			p.tokens[p.tokenIndex].Type != TOKEN_PUNCTUATION ||
-			p.tokens[p.tokenIndex].Value != "]" {
-			return nil, fmt.Errorf("expected closing bracket after array index at line %d", line)
-		}
-		p.tokenIndex++ // Skip closing bracket
-
-		// Create a GetItemNode
-		expr = NewGetItemNode(expr, indexExpr, line)
-	}
-
-	// Now check for filter operator (|)
-	// Process all filters in a loop to handle consecutive filters properly
-	for p.tokenIndex < len(p.tokens) &&
-		p.tokens[p.tokenIndex].Type == TOKEN_PUNCTUATION &&
-		p.tokens[p.tokenIndex].Value == "|" {
-
-		expr, err = p.parseFilters(expr)
-		if err != nil {
-			return nil, err
-		}
-	}
-
-	// Check for binary operators (and, or, ==, !=, <, >, etc.)
-	// Loop to handle multiple binary operators in sequence, such as 'hello' ~ ' ' ~ 'world'
-	for p.tokenIndex < len(p.tokens) &&
-		(p.tokens[p.tokenIndex].Type == TOKEN_OPERATOR ||
-			(p.tokens[p.tokenIndex].Type == TOKEN_NAME &&
-				(p.tokens[p.tokenIndex].Value == "and" ||
-					p.tokens[p.tokenIndex].Value == "or" ||
-					p.tokens[p.tokenIndex].Value == "in" ||
-					p.tokens[p.tokenIndex].Value == "not" ||
-					p.tokens[p.tokenIndex].Value == "is" ||
-					p.tokens[p.tokenIndex].Value == "matches" ||
-					p.tokens[p.tokenIndex].Value == "starts" ||
-					p.tokens[p.tokenIndex].Value == "ends"))) {
-
-		expr, err = p.parseBinaryExpression(expr)
-		if err != nil {
-			return nil, err
-		}
 	}
 
 	// Check for ternary operator (? :)
@@ -388,6 +333,319 @@ func (p *Parser) parseExpression() (Node, error) {
 		p.tokens[p.tokenIndex].Value == "?" {
 
 		return p.parseConditionalExpression(expr)
+	}
+
+	return expr, nil
+}
+
+// peekBinaryOperator reports the binary operator at the current position (if any)
+// and the number of tokens it spans.
+func (p *Parser) peekBinaryOperator() (string, int, bool) {
+	if p.tokenIndex >= len(p.tokens) {
+		return "", 0, false
+	}
+
+	token := p.tokens[p.tokenIndex]
+	nextIs := func(value string) bool {
+		return p.tokenIndex+1 < len(p.tokens) &&
+			p.tokens[p.tokenIndex+1].Type == TOKEN_NAME &&
+			p.tokens[p.tokenIndex+1].Value == value
+	}
+
+	switch token.Type {
+	case TOKEN_OPERATOR:
+		if getOperatorPrecedence(token.Value) > PREC_LOWEST {
+			return token.Value, 1, true
+		}
+	case TOKEN_NAME:
+		switch token.Value {
+		case "and", "or", "in", "matches":
+			return token.Value, 1, true
+		case "not":
+			if nextIs("in") {
+				return "not in", 2, true
+			}
+			if nextIs("defined") {
+				return "not defined", 2, true
+			}
+		case "is":
+			if nextIs("not") {
+				return "is not", 2, true
+			}
+			return "is", 1, true
+		case "starts":
+			if nextIs("with") {
+				return "starts with", 2, true
+			}
+		case "ends":
+			if nextIs("with") {
+				return "ends with", 2, true
+			}
+		}
+	}
+
+	return "", 0, false
+}
+
+// parseBinary parses a chain of binary operators whose precedence is at least minPrec.
+// Operators of equal precedence group from the left.
+func (p *Parser) parseBinary(minPrec int) (Node, error) {
+	left, err := p.parseUnary()
+	if err != nil {
+		return nil, err
+	}
+
+	for {
+		operator, width, ok := p.peekBinaryOperator()
+		if !ok {
+			break
+		}
+
+		precedence := getOperatorPrecedence(operator)
+		if operator == "not defined" {
+			precedence = PREC_COMPARE
+		}
+		if precedence < minPrec {
+			break
+		}
+
+		line := p.tokens[p.tokenIndex].Line
+		p.tokenIndex += width
+
+		switch operator {
+		case "not defined":
+			// Legacy spelling: {% if variable not defined %}
+			left = &UnaryNode{
+				ExpressionNode: ExpressionNode{exprType: ExprUnary, line: line},
+				operator:       "not",
+				node: &TestNode{
+					ExpressionNode: ExpressionNode{exprType: ExprTest, line: line},
+					node:           left,
+					test:           "defined",
+					args:           []Node{},
+				},
+			}
+
+		case "is", "is not":
+			left, err = p.parseTest(left, operator == "is not", line)
+			if err != nil {
+				return nil, err
+			}
+
+		default:
+			right, err := p.parseBinary(precedence + 1)
+			if err != nil {
+				return nil, err
+			}
+			left = NewBinaryNode(operator, left, right, line)
+		}
+	}
+
+	return left, nil
+}
+
+// parseTest parses the test following "is" / "is not"
+func (p *Parser) parseTest(left Node, negated bool, line int) (Node, error) {
+	if p.tokenIndex >= len(p.tokens) || p.tokens[p.tokenIndex].Type != TOKEN_NAME {
+		return nil, fmt.Errorf("expected test name after 'is' at line %d", line)
+	}
+
+	testName := p.tokens[p.tokenIndex].Value
+	p.tokenIndex++ // Skip the test name
+
+	// Parse test arguments if any
+	var args []Node
+	if p.tokenIndex < len(p.tokens) &&
+		p.tokens[p.tokenIndex].Type == TOKEN_PUNCTUATION &&
+		p.tokens[p.tokenIndex].Value == "(" {
+
+		p.tokenIndex++ // Skip opening parenthesis
+
+		var err error
+		args, err = p.parseArguments(")")
+		if err != nil {
+			return nil, err
+		}
+
+		// Expect closing parenthesis
+		if p.tokenIndex >= len(p.tokens) ||
+			p.tokens[p.tokenIndex].Type != TOKEN_PUNCTUATION ||
+			p.tokens[p.tokenIndex].Value != ")" {
+			return nil, fmt.Errorf("expected closing parenthesis after test arguments at line %d", line)
+		}
+		p.tokenIndex++ // Skip closing parenthesis
+	}
+
+	var test Node = &TestNode{
+		ExpressionNode: ExpressionNode{exprType: ExprTest, line: line},
+		node:           left,
+		test:           testName,
+		args:           args,
+	}
+
+	if negated {
+		test = &UnaryNode{
+			ExpressionNode: ExpressionNode{exprType: ExprUnary, line: line},
+			operator:       "not",
+			node:           test,
+		}
+	}
+
+	return test, nil
+}
+
+// parseArguments parses a comma separated list of expressions up to (not including)
+// the given closing punctuation.
+func (p *Parser) parseArguments(closing string) ([]Node, error) {
+	var args []Node
+
+	if p.tokenIndex < len(p.tokens) &&
+		!(p.tokens[p.tokenIndex].Type == TOKEN_PUNCTUATION &&
+			p.tokens[p.tokenIndex].Value == closing) {
+
+		for {
+			argExpr, err := p.parseExpression()
+			if err != nil {
+				return nil, err
+			}
+			args = append(args, argExpr)
+
+			if p.tokenIndex < len(p.tokens) &&
+				p.tokens[p.tokenIndex].Type == TOKEN_PUNCTUATION &&
+				p.tokens[p.tokenIndex].Value == "," {
+				p.tokenIndex++ // Skip comma
+				continue
+			}
+			break
+		}
+	}
+
+	return args, nil
+}
+
+// parseUnary parses prefix operators (not, -, +), which bind tighter than any binary operator
+func (p *Parser) parseUnary() (Node, error) {
+	if p.tokenIndex >= len(p.tokens) {
+		return nil, fmt.Errorf("unexpected end of template")
+	}
+
+	token := p.tokens[p.tokenIndex]
+	if (token.Type == TOKEN_NAME && token.Value == "not") ||
+		(token.Type == TOKEN_OPERATOR && (token.Value == "-" || token.Value == "+")) {
+		p.tokenIndex++
+
+		operand, err := p.parseUnary()
+		if err != nil {
+			return nil, err
+		}
+
+		// Fold a sign into a numeric literal so that -5 stays an integer literal
+		if literal, ok := operand.(*LiteralNode); ok && token.Value != "not" {
+			switch v := literal.value.(type) {
+			case int:
+				if token.Value == "-" {
+					literal.value = -v
+				}
+				return literal, nil
+			case float64:
+				if token.Value == "-" {
+					literal.value = -v
+				}
+				return literal, nil
+			}
+		}
+
+		return NewUnaryNode(token.Value, operand, token.Line), nil
+	}
+
+	return p.parsePostfix()
+}
+
+// parsePostfix parses a primary expression followed by any number of attribute
+// accesses, method calls, subscripts and filters.
+func (p *Parser) parsePostfix() (Node, error) {
+	expr, err := p.parseSimpleExpression()
+	if err != nil {
+		return nil, err
+	}
+
+	for p.tokenIndex < len(p.tokens) && p.tokens[p.tokenIndex].Type == TOKEN_PUNCTUATION {
+		token := p.tokens[p.tokenIndex]
+
+		switch token.Value {
+		case ".":
+			p.tokenIndex++
+
+			if p.tokenIndex >= len(p.tokens) || p.tokens[p.tokenIndex].Type != TOKEN_NAME {
+				return nil, fmt.Errorf("expected attribute name at line %d", token.Line)
+			}
+
+			attrName := p.tokens[p.tokenIndex].Value
+			attrNode := NewLiteralNode(attrName, p.tokens[p.tokenIndex].Line)
+			p.tokenIndex++
+
+			// Check if this is a method call like (module.method())
+			if p.tokenIndex < len(p.tokens) &&
+				p.tokens[p.tokenIndex].Type == TOKEN_PUNCTUATION &&
+				p.tokens[p.tokenIndex].Value == "(" {
+
+				p.tokenIndex++ // Skip opening parenthesis
+
+				args, err := p.parseArguments(")")
+				if err != nil {
+					return nil, err
+				}
+
+				// Expect closing parenthesis
+				if p.tokenIndex >= len(p.tokens) ||
+					p.tokens[p.tokenIndex].Type != TOKEN_PUNCTUATION ||
+					p.tokens[p.tokenIndex].Value != ")" {
+					return nil, fmt.Errorf("expected closing parenthesis after method arguments at line %d", token.Line)
+				}
+				p.tokenIndex++ // Skip closing parenthesis
+
+				// Create a function call with the module expression and method name
+				expr = &FunctionNode{
+					ExpressionNode: ExpressionNode{
+						exprType: ExprFunction,
+						line:     token.Line,
+					},
+					name:       attrName,
+					args:       args,
+					moduleExpr: expr,
+				}
+			} else {
+				// Regular attribute access (not a method call)
+				expr = NewGetAttrNode(expr, attrNode, token.Line)
+			}
+
+		case "[":
+			p.tokenIndex++ // Skip the opening bracket
+
+			indexExpr, err := p.parseExpression()
+			if err != nil {
+				return nil, err
+			}
+
+			// Expect closing bracket
+			if p.tokenIndex >= len(p.tokens) ||
+				p.tokens[p.tokenIndex].Type != TOKEN_PUNCTUATION ||
+				p.tokens[p.tokenIndex].Value != "]" {
+				return nil, fmt.Errorf("expected closing bracket after array index at line %d", token.Line)
+			}
+			p.tokenIndex++ // Skip closing bracket
+
+			expr = NewGetItemNode(expr, indexExpr, token.Line)
+
+		case "|":
+			expr, err = p.parseFilters(expr)
+			if err != nil {
+				return nil, err
+			}
+
+		default:
+			return expr, nil
+		}
 	}
 
 	return expr, nil
@@ -439,26 +697,6 @@ func (p *Parser) parseSimpleExpression() (Node, error) {
 	}
 
 	token := p.tokens[p.tokenIndex]
-
-	// Handle unary operators like 'not' and unary minus/plus
-	if (token.Type == TOKEN_NAME && token.Value == "not") ||
-		(token.Type == TOKEN_OPERATOR && (token.Value == "-" || token.Value == "+")) {
-		// Skip the operator token
-		operator := token.Value
-		p.tokenIndex++
-
-		// Get the line number for the unary node
-		line := token.Line
-
-		// Parse the operand
-		operand, err := p.parseSimpleExpression()
-		if err != nil {
-			return nil, err
-		}
-
-		// Create a unary node
-		return NewUnaryNode(operator, operand, line), nil
-	}
 
 	switch token.Type {
 	case TOKEN_STRING:
@@ -546,94 +784,7 @@ func (p *Parser) parseSimpleExpression() (Node, error) {
 		}
 
 		// If not a function call, it's a regular variable
-		var result Node = NewVariableNode(varName, varLine)
-
-		// Check for attribute access (obj.attr) or method calls (obj.method())
-		for p.tokenIndex < len(p.tokens) &&
-			p.tokens[p.tokenIndex].Type == TOKEN_PUNCTUATION &&
-			p.tokens[p.tokenIndex].Value == "." {
-
-			p.tokenIndex++
-
-			if p.tokenIndex >= len(p.tokens) || p.tokens[p.tokenIndex].Type != TOKEN_NAME {
-				return nil, fmt.Errorf("expected attribute name at line %d", varLine)
-			}
-
-			attrName := p.tokens[p.tokenIndex].Value
-			attrNode := NewLiteralNode(attrName, p.tokens[p.tokenIndex].Line)
-			p.tokenIndex++
-
-			// Check if this is a method call like (module.method())
-			if p.tokenIndex < len(p.tokens) &&
-				p.tokens[p.tokenIndex].Type == TOKEN_PUNCTUATION &&
-				p.tokens[p.tokenIndex].Value == "(" {
-
-				if IsDebugEnabled() && debugger.level >= DebugVerbose {
-					LogVerbose("Detected module.method call: %s.%s(...)", varName, attrName)
-				}
-
-				// This is a method call with the method stored in attrName
-				// We'll use the moduleExpr field in FunctionNode to store the module expression
-
-				// Parse the arguments
-				p.tokenIndex++ // Skip opening parenthesis
-
-				// Parse arguments
-				var args []Node
-
-				// If there are arguments (not empty parentheses)
-				if p.tokenIndex < len(p.tokens) &&
-					!(p.tokenIndex < len(p.tokens) &&
-						p.tokens[p.tokenIndex].Type == TOKEN_PUNCTUATION &&
-						p.tokens[p.tokenIndex].Value == ")") {
-
-					for {
-						// Parse each argument expression
-						argExpr, err := p.parseExpression()
-						if err != nil {
-							return nil, err
-						}
-						args = append(args, argExpr)
-
-						// Check for comma separator between arguments
-						if p.tokenIndex < len(p.tokens) &&
-							p.tokens[p.tokenIndex].Type == TOKEN_PUNCTUATION &&
-							p.tokens[p.tokenIndex].Value == "," {
-							p.tokenIndex++ // Skip comma
-							continue
-						}
-
-						// No comma, so must be end of argument list
-						break
-					}
-				}
-
-				// Expect closing parenthesis
-				if p.tokenIndex >= len(p.tokens) ||
-					p.tokens[p.tokenIndex].Type != TOKEN_PUNCTUATION ||
-					p.tokens[p.tokenIndex].Value != ")" {
-					return nil, fmt.Errorf("expected closing parenthesis after method arguments at line %d", varLine)
-				}
-				p.tokenIndex++ // Skip closing parenthesis
-
-				// Create a function call with the module expression and method name
-				result = &FunctionNode{
-					ExpressionNode: ExpressionNode{
-						exprType: ExprFunction,
-						line:     varLine,
-					},
-					name: attrName,
-					args: args,
-					// Special handling - We'll store the module in the FunctionNode
-					moduleExpr: result,
-				}
-			} else {
-				// Regular attribute access (not a method call)
-				result = NewGetAttrNode(result, attrNode, varLine)
-			}
-		}
-
-		return result, nil
+		return NewVariableNode(varName, varLine), nil
 
 	case TOKEN_PUNCTUATION:
 		// Handle array literals [1, 2, 3]
@@ -649,37 +800,6 @@ func (p *Parser) parseSimpleExpression() (Node, error) {
 		// Handle parenthesized expressions
 		if token.Value == "(" {
 			p.tokenIndex++ // Skip "("
-
-			// Check for unary operator immediately after opening parenthesis
-			if p.tokenIndex < len(p.tokens) &&
-				p.tokens[p.tokenIndex].Type == TOKEN_OPERATOR &&
-				(p.tokens[p.tokenIndex].Value == "-" || p.tokens[p.tokenIndex].Value == "+") {
-
-				// Handle unary operation inside parentheses
-				unaryToken := p.tokens[p.tokenIndex]
-				operator := unaryToken.Value
-				line := unaryToken.Line
-				p.tokenIndex++ // Skip the operator
-
-				// Parse the operand
-				operand, err := p.parseExpression()
-				if err != nil {
-					return nil, err
-				}
-
-				// Create a unary node
-				expr := NewUnaryNode(operator, operand, line)
-
-				// Expect closing parenthesis
-				if p.tokenIndex >= len(p.tokens) ||
-					p.tokens[p.tokenIndex].Type != TOKEN_PUNCTUATION ||
-					p.tokens[p.tokenIndex].Value != ")" {
-					return nil, fmt.Errorf("expected closing parenthesis at line %d", token.Line)
-				}
-				p.tokenIndex++ // Skip ")"
-
-				return expr, nil
-			}
 
 			// Regular parenthesized expression
 			expr, err := p.parseExpression()
@@ -940,233 +1060,6 @@ func getOperatorPrecedence(operator string) int {
 	default:
 		return PREC_LOWEST
 	}
-}
-
-// Parse binary expressions (a + b, a and b, a in b, etc.)
-func (p *Parser) parseBinaryExpression(left Node) (Node, error) {
-	token := p.tokens[p.tokenIndex]
-	operator := token.Value
-	line := token.Line
-
-	// Special handling for "not defined" pattern
-	// This is the common pattern used in Twig: {% if variable not defined %}
-	if operator == "not" && p.tokenIndex+1 < len(p.tokens) &&
-		p.tokens[p.tokenIndex+1].Type == TOKEN_NAME &&
-		p.tokens[p.tokenIndex+1].Value == "defined" {
-
-		// Next token should be "defined"
-		p.tokenIndex += 2 // Skip both "not" and "defined"
-
-		// Create a TestNode with "defined" test
-		testNode := &TestNode{
-			ExpressionNode: ExpressionNode{
-				exprType: ExprTest,
-				line:     line,
-			},
-			node: left,
-			test: "defined",
-			args: []Node{},
-		}
-
-		// Then wrap it in a unary "not" node
-		return &UnaryNode{
-			ExpressionNode: ExpressionNode{
-				exprType: ExprUnary,
-				line:     line,
-			},
-			operator: "not",
-			node:     testNode,
-		}, nil
-	}
-
-	// Process multi-word operators
-	if token.Type == TOKEN_NAME {
-		// Handle 'not in' operator
-		if token.Value == "not" && p.tokenIndex+1 < len(p.tokens) &&
-			p.tokens[p.tokenIndex+1].Type == TOKEN_NAME &&
-			p.tokens[p.tokenIndex+1].Value == "in" {
-			operator = "not in"
-			p.tokenIndex += 2 // Skip both 'not' and 'in'
-		} else if token.Value == "is" && p.tokenIndex+1 < len(p.tokens) &&
-			p.tokens[p.tokenIndex+1].Type == TOKEN_NAME &&
-			p.tokens[p.tokenIndex+1].Value == "not" {
-			// Handle 'is not' operator
-			operator = "is not"
-			p.tokenIndex += 2 // Skip both 'is' and 'not'
-		} else if token.Value == "starts" && p.tokenIndex+1 < len(p.tokens) &&
-			p.tokens[p.tokenIndex+1].Type == TOKEN_NAME &&
-			p.tokens[p.tokenIndex+1].Value == "with" {
-			// Handle 'starts with' operator
-			operator = "starts with"
-			p.tokenIndex += 2 // Skip both 'starts' and 'with'
-		} else if token.Value == "ends" && p.tokenIndex+1 < len(p.tokens) &&
-			p.tokens[p.tokenIndex+1].Type == TOKEN_NAME &&
-			p.tokens[p.tokenIndex+1].Value == "with" {
-			// Handle 'ends with' operator
-			operator = "ends with"
-			p.tokenIndex += 2 // Skip both 'ends' and 'with'
-		} else {
-			// Single word operators like 'is', 'and', 'or', 'in', 'matches'
-			p.tokenIndex++ // Skip the operator token
-		}
-	} else {
-		// Regular operators like +, -, *, /, etc.
-		p.tokenIndex++ // Skip the operator token
-	}
-
-	// Handle 'is' followed by a test
-	if operator == "is" || operator == "is not" {
-		// Check if this is a test
-		if p.tokenIndex < len(p.tokens) && p.tokens[p.tokenIndex].Type == TOKEN_NAME {
-			testName := p.tokens[p.tokenIndex].Value
-			p.tokenIndex++ // Skip the test name
-
-			// Parse test arguments if any
-			var args []Node
-
-			// If there's an opening parenthesis, parse arguments
-			if p.tokenIndex < len(p.tokens) &&
-				p.tokens[p.tokenIndex].Type == TOKEN_PUNCTUATION &&
-				p.tokens[p.tokenIndex].Value == "(" {
-
-				p.tokenIndex++ // Skip opening parenthesis
-
-				// Parse arguments
-				if p.tokenIndex < len(p.tokens) &&
-					!(p.tokens[p.tokenIndex].Type == TOKEN_PUNCTUATION &&
-						p.tokens[p.tokenIndex].Value == ")") {
-
-					for {
-						// Parse each argument expression
-						argExpr, err := p.parseExpression()
-						if err != nil {
-							return nil, err
-						}
-						args = append(args, argExpr)
-
-						// Check for comma separator
-						if p.tokenIndex < len(p.tokens) &&
-							p.tokens[p.tokenIndex].Type == TOKEN_PUNCTUATION &&
-							p.tokens[p.tokenIndex].Value == "," {
-							p.tokenIndex++ // Skip comma
-							continue
-						}
-
-						// No comma, so end of argument list
-						break
-					}
-				}
-
-				// Expect closing parenthesis
-				if p.tokenIndex >= len(p.tokens) ||
-					p.tokens[p.tokenIndex].Type != TOKEN_PUNCTUATION ||
-					p.tokens[p.tokenIndex].Value != ")" {
-					return nil, fmt.Errorf("expected closing parenthesis after test arguments at line %d", line)
-				}
-				p.tokenIndex++ // Skip closing parenthesis
-			}
-
-			// Create the test node
-			test := &TestNode{
-				ExpressionNode: ExpressionNode{
-					exprType: ExprTest,
-					line:     line,
-				},
-				node: left,
-				test: testName,
-				args: args,
-			}
-
-			// If it's a negated test (is not), create a unary 'not' node
-			if operator == "is not" {
-				return &UnaryNode{
-					ExpressionNode: ExpressionNode{
-						exprType: ExprUnary,
-						line:     line,
-					},
-					operator: "not",
-					node:     test,
-				}, nil
-			}
-
-			return test, nil
-		}
-	}
-
-	// If we get here, we have a regular binary operator
-
-	// Get precedence of current operator
-	precedence := getOperatorPrecedence(operator)
-
-	// Parse the right side expression
-	right, err := p.parseSimpleExpression()
-	if err != nil {
-		return nil, err
-	}
-
-	// Create the current binary node
-	binaryNode := NewBinaryNode(operator, left, right, line)
-
-	// Check for another binary operator
-	if p.tokenIndex < len(p.tokens) &&
-		(p.tokens[p.tokenIndex].Type == TOKEN_OPERATOR ||
-			(p.tokens[p.tokenIndex].Type == TOKEN_NAME &&
-				(p.tokens[p.tokenIndex].Value == "and" ||
-					p.tokens[p.tokenIndex].Value == "or" ||
-					p.tokens[p.tokenIndex].Value == "in" ||
-					p.tokens[p.tokenIndex].Value == "not" ||
-					p.tokens[p.tokenIndex].Value == "is" ||
-					p.tokens[p.tokenIndex].Value == "matches" ||
-					p.tokens[p.tokenIndex].Value == "starts" ||
-					p.tokens[p.tokenIndex].Value == "ends"))) {
-
-		// Get the next operator and its precedence
-		nextOperator := p.tokens[p.tokenIndex].Value
-		if p.tokens[p.tokenIndex].Type == TOKEN_NAME {
-			// Handle multi-word operators
-			if nextOperator == "not" && p.tokenIndex+1 < len(p.tokens) &&
-				p.tokens[p.tokenIndex+1].Type == TOKEN_NAME &&
-				p.tokens[p.tokenIndex+1].Value == "in" {
-				nextOperator = "not in"
-			} else if nextOperator == "is" && p.tokenIndex+1 < len(p.tokens) &&
-				p.tokens[p.tokenIndex+1].Type == TOKEN_NAME &&
-				p.tokens[p.tokenIndex+1].Value == "not" {
-				nextOperator = "is not"
-			} else if nextOperator == "starts" && p.tokenIndex+1 < len(p.tokens) &&
-				p.tokens[p.tokenIndex+1].Type == TOKEN_NAME &&
-				p.tokens[p.tokenIndex+1].Value == "with" {
-				nextOperator = "starts with"
-			} else if nextOperator == "ends" && p.tokenIndex+1 < len(p.tokens) &&
-				p.tokens[p.tokenIndex+1].Type == TOKEN_NAME &&
-				p.tokens[p.tokenIndex+1].Value == "with" {
-				nextOperator = "ends with"
-			}
-		}
-
-		nextPrecedence := getOperatorPrecedence(nextOperator)
-
-		// If the next operator has higher precedence, we need to parse it first
-		if nextPrecedence > precedence {
-			// Replace the right side with a binary expression
-			newRight, err := p.parseBinaryExpression(right)
-			if err != nil {
-				return nil, err
-			}
-
-			// Update the binary node with the new right side
-			binaryNode = NewBinaryNode(operator, left, newRight, line)
-		}
-	}
-
-	// Check for ternary operator after parsing the binary expression
-	if p.tokenIndex < len(p.tokens) &&
-		p.tokens[p.tokenIndex].Type == TOKEN_PUNCTUATION &&
-		p.tokens[p.tokenIndex].Value == "?" {
-		// This is a conditional expression, use the binary node as the condition
-		return p.parseConditionalExpression(binaryNode)
-	}
-
-	return binaryNode, nil
 }
 
 // parseEndTag handles closing tags like endif, endfor, endblock, etc.
